@@ -282,6 +282,9 @@ Judge(stb, ev) ==
        [st |-> stb, bad |-> TRUE, viol |-> {V1(<<"T01">>, "not_applicable")}]
   ELSE IF ev.res = "driver_error"
   THEN [st |-> stb, bad |-> TRUE, viol |-> {V1(<<"T00">>, "driver_error")}]
+  ELSE IF ev.res = "view_denied"
+  THEN (* the typed view of the vector's real element type was refused *)
+       [st |-> stb, bad |-> TRUE, viol |-> {V1(<<"C13", "C04">> \o PropsOf(a, "exact"), "typed_view_of_real_type")}]
   ELSE IF IsFault(ev) THEN JudgeFault(stb, ev)
   ELSE
   LET x    == Apply(stb, a, FreshFor(stb, ev))
